@@ -98,6 +98,35 @@ func c04Gen(rng *verifsim.RNG, idx int, tier string) *Plan {
 		if p.Horizon < t0+nsSec {
 			p.Horizon = t0 + nsSec
 		}
+	} else if nif >= 2 && rng.Bool(0.2) {
+		// Two debug API requests in flight at once with a forwarding flip between
+		// their starts: the first sampled the old state and is stuck; the second
+		// reads the new state, then gets stuck itself at the next interface while
+		// the first one finishes. Each answers with what it read.
+		p.Class = "overlapping-api+flip"
+		t0 := int64(rng.Dur(4*time.Second, horizon)) + 321
+		a, b := n.Ifaces[0].Name, n.Ifaces[1].Name
+		var keep []Action
+		for _, x := range p.Actions {
+			if x.At >= t0-nsSec && x.At <= t0+1500*nsMs && (x.Kind == "fwd" || x.Kind == "http") {
+				continue
+			}
+			keep = append(keep, x)
+		}
+		p.Actions = keep
+		p.Faults = append(p.Faults,
+			Fault{Seam: "fwd", If: a, From: t0, Count: 1, Hold: "ha", Mode: "sampled"},
+			Fault{Seam: "fwd", If: b, From: t0 + 500*nsMs, Count: 1, Hold: "hb", Mode: "sampled"})
+		p.Actions = append(p.Actions,
+			Action{At: t0 - 500*nsMs, Kind: "fwd", If: a, On: true},
+			Action{At: t0, Kind: "http", Path: "/_/api/interfaces"},
+			Action{At: t0 + 300*nsMs, Kind: "fwd", If: a, On: false},
+			Action{At: t0 + 600*nsMs, Kind: "http", Path: "/_/api/interfaces"},
+			Action{At: t0 + 700*nsMs, Kind: "release", Hold: "ha"},
+			Action{At: t0 + 800*nsMs, Kind: "release", Hold: "hb"})
+		if p.Horizon < t0+2*nsSec {
+			p.Horizon = t0 + 2*nsSec
+		}
 	} else if rng.Bool(0.15) {
 		// A transmission fails (the daemon re-establishes the connection) and
 		// forwarding flips right afterwards: whatever is sent next is built from
@@ -314,15 +343,32 @@ func c04Oracle(info *runInfo, res *verifsim.Result) {
 				overlap = true
 			}
 		}
-		if overlap {
-			res.Probe("overlapping_requests_not_judged")
-			continue
-		}
 		fwdRead := map[string]bool{}
-		for j := range info.ev {
-			x := &info.ev[j]
-			if x.Seq > enterSeq && x.Seq < e.Seq && x.K == "fwd.exit" && x.Err == "" && !advG[x.G] {
-				fwdRead[x.If] = x.V == 1
+		if overlap {
+			// ... unless forwarding did not change anywhere while this request was
+			// in progress: then whatever it read itself is what the world held
+			// when it started (the other request may have sampled older values)
+			static := true
+			for j := range info.ev {
+				x := &info.ev[j]
+				if x.Seq > enterSeq && x.Seq < e.Seq && (x.K == "act.fwd" || (x.K == "fwd.exit" && x.Err != "")) {
+					static = false
+				}
+			}
+			if !static {
+				res.Probe("overlapping_requests_not_judged")
+				continue
+			}
+			res.Probe("overlapping_requests_judged_by_world")
+			for _, iw := range info.plan.Nodes[0].Ifaces {
+				fwdRead[iw.Name] = worldFwdAt(info, 0, iw.Name, enterSeq)
+			}
+		} else {
+			for j := range info.ev {
+				x := &info.ev[j]
+				if x.Seq > enterSeq && x.Seq < e.Seq && x.K == "fwd.exit" && x.Err == "" && !advG[x.G] {
+					fwdRead[x.If] = x.V == 1
+				}
 			}
 		}
 		switch e.S {
